@@ -48,6 +48,20 @@ func (g *Gen) definedOutside(li *loopInfo, v ssa.Value) bool {
 func (g *Gen) loopWrites(li *loopInfo) (objs []string, regions []region, allocs bool, ok bool, why string) {
 	ok = true
 	seen := map[string]bool{}
+	li.unknownSorts = map[string]bool{}
+	// unknownTarget: a write whose target object cannot be named at loop entry: every heap sort the written
+	// type occupies is havocked completely (a write of type T touches only cells of T's sorts)
+	unknownTarget := func(t types.Type) bool {
+		if t == nil {
+			return false
+		}
+		defer func() { recover() }()
+		for _, c := range g.lay.Cells(t) {
+			li.unknownSorts[c.Sort] = true
+		}
+		return true
+	}
+	_ = unknownTarget
 	addRoot := func(v ssa.Value) {
 		r := rootOf(v)
 		switch r.(type) {
@@ -72,6 +86,17 @@ func (g *Gen) loopWrites(li *loopInfo) (objs []string, regions []region, allocs 
 				seen[rv.S[0]] = true
 				objs = append(objs, rv.S[0])
 			}
+			return
+		}
+		// target defined inside the loop: havoc the sorts of the pointee type
+		var pointee types.Type
+		switch u := v.Type().Underlying().(type) {
+		case *types.Pointer:
+			pointee = u.Elem()
+		case *types.Slice:
+			pointee = u.Elem()
+		}
+		if pointee != nil && unknownTarget(pointee) {
 			return
 		}
 		ok = false
@@ -342,6 +367,12 @@ func (g *Gen) loopEntry(li *loopInfo, preds []*ssa.BasicBlock, conds []string) {
 		}
 		allocs = true
 	} else {
+		for srt := range li.unknownSorts {
+			if _, have := g.heap[srt]; have {
+				g.heap[srt] = g.freshConst("Hloopsort"+srt, g.heapSort(srt))
+				g.eng.note(g, fmt.Sprintf("loop %d: all %s cells havocked (write through a pointer computed inside the loop)", li.ordinal, srt))
+			}
+		}
 		for _, r := range regions {
 			g.havocRegion(r)
 		}
@@ -1179,7 +1210,7 @@ func (g *Gen) doReturn(x *ssa.Return) {
 		if n := sig.Results().At(i).Name(); n != "" && n != "_" {
 			results[n] = v
 		}
-		if len(x.Results) == 1 {
+		if _, isParam := g.params["result"]; len(x.Results) == 1 && !isParam {
 			results["result"] = v
 		}
 		if isErrorType(sig.Results().At(i).Type()) {
